@@ -196,10 +196,6 @@ where
     let mut norm = guess.dot(&guess).sqrt().abs();
     let mut n = 0;
 
-    if norm <= tol {
-        return Ok(guess);
-    }
-
     while n < n_max {
         let f_val = -f(guess.as_slice());
         let f_deriv_val = jac(guess.as_slice());
